@@ -2,7 +2,7 @@
    Theorems only (proofs in Acme.C04.Proofs_Xxx); statements: Acme.C04.Invariant (Inv, op_ok, Reach),
    Acme.C04.Spec (KeysUnique, LookupByNameSpec). Layer 1 of the model: networks, buses, nodes,
    interfaces, messages as opaque items, enums and enum values (33 operations). *)
-From Acme.C04 Require Import Spec Proofs_New Proofs_Step Proofs_Cor Proofs_Witness.
+From Acme.C04 Require Import Spec Proofs_New Proofs_Step Proofs_Cor Proofs_Witness Proofs_Pre.
 
 Theorem inv_init : Inv init.
 Proof. exact Proofs_New.inv_init. Qed.
@@ -28,3 +28,25 @@ Theorem op_ok_satisfiable :
   all_okb init sample_history = true /\ all_accepted sample_history = true /\ Reach (run sample_history).
 Proof. exact Proofs_Witness.op_ok_satisfiable. Qed.
 Print Assumptions op_ok_satisfiable.
+
+(* a key that is in use is refused: any violated documented precondition ([viol], Spec.v; for the
+   name / id / static CAN-ID / index clauses: "some current child of the container carries the key") *)
+Theorem used_key_refused : forall s o cw, Inv s -> viol s o cw -> is_err (snd (step s o)) = true.
+Proof. exact Proofs_Pre.used_key_refused. Qed.
+Print Assumptions used_key_refused.
+
+(* a key released by a rename, id change or removal is immediately reusable: after any accepted or
+   refused call o1, a call o2 is accepted as soon as its precondition holds on the *current*
+   contents, whatever the history was *)
+Theorem released_key_reusable :
+  forall s o1 o2, Inv s -> op_ok s o1 -> pre (fst (step s o1)) o2 -> snd (step (fst (step s o1)) o2) = Ok.
+Proof. exact Proofs_Pre.released_key_reusable. Qed.
+Print Assumptions released_key_reusable.
+
+Theorem released_key_reused :
+  results reuse_history =
+  cons Ok (cons Ok (cons Ok (cons Ok (cons (Err (cons (Duplicated, WName) nil)) (cons Ok
+  (cons (Err (cons (Duplicated, WMessageID) nil)) (cons Ok (cons Ok (cons Ok
+  (cons (Err (cons (Duplicated, WCANID) nil)) (cons Ok (cons Ok nil)))))))))))).
+Proof. exact Proofs_Witness.released_key_reused. Qed.
+Print Assumptions released_key_reused.
